@@ -310,6 +310,71 @@ def guards_oracle(ctx, o, first_only=False):
                 chk("duplicate-symbols-refused", True, inp, "refused", "refused")
         if fails and first_only:
             return fails
+    # ---- new TOTP keys: the default key size is the digest size of the algorithm the object will actually use, whichever way it is named
+    #      (class default, using(alg=…), per-call alg=…), an explicit size is taken exactly, and the bytes are the random source's bytes
+    import hashlib
+    import random
+
+    import passlib.totp as pt
+    import passlib.utils as pu
+
+    algs = ("sha1", "sha256", "sha512")
+    for a_cls in (None,) + algs:
+        factory = pt.TOTP if a_cls is None else pt.TOTP.using(alg=a_cls)
+        for a_call in (None,) + algs:
+            eff = a_call or a_cls or "sha1"
+            want = hashlib.new(eff).digest_size
+            for how in ("new()", "TOTP(new=True)"):
+                for size in (None, 10, 16, want, want + 3):
+                    if size is not None and size > want:
+                        continue        # larger than the digest is refused by design
+                    kw = {}
+                    if a_call:
+                        kw["alg"] = a_call
+                    if size is not None:
+                        kw["size"] = size
+                    inp = {"op": "totp-new-key", "class_alg": a_cls, "call_alg": a_call, "size": size, "via": how}
+                    old = pt.rng
+                    v = random.Random(f"{a_cls}{a_call}{size}{how}").getrandbits(8 * 64)
+                    pt.rng = FixedRng(v)
+                    try:
+                        t = factory.new(**kw) if how == "new()" else factory(new=True, **kw)
+                        n = size if size is not None else want
+                        exp = pu.getrandbytes(FixedRng(v), n)
+                        chk("totp-new-key", t.key == exp and t.alg == eff, inp, {"alg": t.alg, "key_len": len(t.key)}, {"alg": eff, "key_len": n, "key": "the source's bytes"})
+                    except Exception as e:  # noqa: BLE001
+                        chk("totp-new-key", False, inp, type(e).__name__ + ": " + str(e)[:80], "a new key")
+                    finally:
+                        pt.rng = old
+        if fails and first_only:
+            return fails
+    # ---- batches: N values asked for at once are N independent draws — exactly what N single calls on the same source give
+    import itertools
+
+    for mk, tag in ((lambda r: pwd.WordGenerator(rng=r, length=9, chars="abcdefghijklmnopqrstuvwxyz0123456789"), "genword"),
+                    (lambda r: pwd.WordGenerator(rng=r, entropy=70), "genword-entropy-arg"),
+                    (lambda r: pwd.PhraseGenerator(rng=r, length=4, words=["alpha", "bravo", "charlie", "delta", "echo", "foxtrot", "golf"]), "genphrase")):
+        for n in (1, 2, 3, 7):
+            for seed in (1, 2):
+                inp = {"op": "batch", "generator": tag, "returns": n, "seed": seed}
+                try:
+                    batch = mk(random.Random(seed))(n)
+                    g = mk(random.Random(seed))
+                    singles = [g() for _ in range(n)]
+                    it = list(itertools.islice(mk(random.Random(seed))(iter), n))
+                    chk("batch-equals-singles", list(batch) == singles == it, inp, {"batch": batch, "iter": it}, {"singles": singles})
+                except Exception as e:  # noqa: BLE001
+                    chk("batch-equals-singles", False, inp, type(e).__name__ + ": " + str(e)[:80], "n independent values")
+        if fails and first_only:
+            return fails
+    for fn, kw, tag in ((pwd.genword, dict(length=12), "genword()"), (pwd.genphrase, dict(length=5), "genphrase()")):
+        for n in (2, 5):
+            r = fn(returns=n, **kw)
+            sep = " " if tag == "genphrase()" else None
+            parts = [x.split(sep) if sep else list(x) for x in r]
+            # no value of a batch is a shifted copy of its neighbour (n·length independent symbols, not length+n−1)
+            shifted = any(a[1:] == b[:-1] for a, b in zip(parts, parts[1:]))
+            chk("batch-not-sliding-window", len(r) == n and not shifted, {"op": "batch-window", "function": tag, "returns": n}, r, "independent values")
     for N in range(2, 95, 3 if not ctx.thorough else 1):
         chars = "".join(chr(33 + i) for i in range(N))
         for e in (1, 7, 40, 64, 128, 199):
